@@ -8,9 +8,13 @@
     model-mismatch <what>                the Lean IL semantics and falcon's executor disagree on the recovered function
     rejected <err>                       translate_function_extended returned an error (outside the property unless a panic)
     oracle-miss / unparsable             machinery
+    asm-mismatch <first difference>      (only when the verdict would be `ok`) the Lean model of the assembly algorithm
+                                         (FalconModel/Assemble.lean: `discover` + `assemble` run on the `tr` field, the
+                                         translation results falcon's work list uses) does not reproduce the recovered function
 -/
 import FalconModel.DriverLoop
 import FalconModel.FnRec
+import FalconModel.Assemble
 open Falcon Falcon.FnRec
 
 def splitBar (s : String) : List String := (s.splitOn " | ").map (fun x => x.trimAscii.toString)
@@ -33,14 +37,14 @@ def firstDiff (a b : List Nat) : Option (Nat × Nat × Nat) :=
     | _, _, _ => none
   go a b 0
 
-def handle (line : String) : String :=
+def handleBase (line : String) : String :=
   match line.splitOn "\t" with
   | [req, ans] =>
     if ans.startsWith "panic" then "panic " ++ ans ++ "\t-"
     else if ans.startsWith "err:" then "rejected " ++ ans ++ "\t-"
     else
       match splitBar req, splitBar ans with
-      | [head, st], [fnS, trS, postS, orS] =>
+      | [head, st], fnS :: trS :: postS :: orS :: _ =>
         let hf := head.splitOn " "
         let arch := hf[1]?.getD ""
         let mips := arch.startsWith "mips"
@@ -87,5 +91,92 @@ def handle (line : String) : String :=
         | _, _, _ => "unparsable\t-"
       | _, _ => "unparsable\t-"
   | _ => "bad-request\t-"
+
+-- ------------------------------------------------------------------------------------------------
+-- the assembly algorithm: model vs falcon
+
+/-- `tr` field: `(at <addr> <btr>)` or `(at <addr> empty)` -/
+def parseTr (s : String) : Option (List (Nat × Option BTR)) :=
+  match Sx.parseAll s with
+  | some xs => xs.mapM fun x =>
+      match x with
+      | .list [.atom "at", a, .atom "empty"] => do pure ((← a.nat?), none)
+      | .list [.atom "at", a, b] => do pure ((← a.nat?), some (← Fil.btr? b))
+      | _ => none
+  | none => none
+
+def parseManual (s : String) : List Assemble.ManualEdge :=
+  ((s.drop 2).toString.splitOn ",").filterMap fun p =>
+    match p.splitOn "-" with
+    | [h, t] =>
+      let hx := fun (x : String) => Sx.parseNat (if x.startsWith "0x" then x else "0x" ++ x)
+      match hx h, hx t with
+      | some h, some t => some { head := h, tail := t }
+      | _, _ => none
+    | _ => none
+
+/-- what `fil::function_str` can see of the private counters: max index + 1, 0 temporaries -/
+def canonFn (f : Function) : Function :=
+  { f with cfg := { f.cfg with
+      nextIndex := f.cfg.blocks.foldl (fun m b => max m (b.index + 1)) 0
+      nextTemp := 0
+      blocks := f.cfg.blocks.map (fun b => { b with nextInstr := b.instrs.foldl (fun m i => max m (i.index + 1)) 0 }) } }
+
+def fnDiff (m f : Function) : String :=
+  if m.addr ≠ f.addr then "addr"
+  else if m.cfg.entry ≠ f.cfg.entry then s!"entry model={m.cfg.entry} falcon={f.cfg.entry}"
+  else if m.cfg.exit ≠ f.cfg.exit then s!"exit model={m.cfg.exit} falcon={f.cfg.exit}"
+  else if m.cfg.blocks.map (·.index) ≠ f.cfg.blocks.map (·.index) then
+    s!"block-indices model={m.cfg.blocks.map (·.index)} falcon={f.cfg.blocks.map (·.index)}"
+  else if m.cfg.edges.map CfgEdit.edgeKey ≠ f.cfg.edges.map CfgEdit.edgeKey then
+    s!"edge-set model={m.cfg.edges.map CfgEdit.edgeKey} falcon={f.cfg.edges.map CfgEdit.edgeKey}"
+  else if m.cfg.edges ≠ f.cfg.edges then "edge-guards"
+  else match (m.cfg.blocks.zip f.cfg.blocks).find? (fun (a, b) => a ≠ b) with
+    | some (a, _) => s!"block {a.index}"
+    | none => if m.cfg.nextIndex ≠ f.cfg.nextIndex then "next-index" else "other"
+
+/-- `none` = the model reproduces falcon's function -/
+def asmCheck (req ans : String) : Option String :=
+  match splitBar req, splitBar ans with
+  | head :: _, [fnS, _, _, _, asmS] =>
+    let hf := head.splitOn " "
+    let entry := (hf[4]?.bind Sx.parseNat).getD 0
+    let manual := parseManual (hf[5]?.getD "m=")
+    match Sx.parseAll (fnS.drop 3).toString, parseTr (asmS.drop 3).toString with
+    | some [fx], some tr =>
+      match Fil.function? fx with
+      | none => some "unparsable-fn"
+      | some f =>
+        let tb : List (Nat × BTR) := tr.map (fun (a, r) => (a, r.getD (Assemble.emptyResult a)))
+        -- the work list of the model, fed with exactly these translation results
+        let oracle : Nat → Option (Res BTR) := fun a =>
+          match tr.lookup a with
+          | some (some r) => some (.ok r)
+          | some none => none
+          | none => some (.err .other)
+        match Assemble.discover oracle manual entry (4 * tr.length + 16) with
+        | .ok tb' =>
+          if tb'.map (·.1) ≠ tb.map (·.1) then
+            some s!"worklist model={(tb'.map (·.1)).map Fil.hex} falcon={(tb.map (·.1)).map Fil.hex}"
+          else
+            match Assemble.assemble tb' manual entry with
+            | .ok m => if canonFn m = f then none else some (fnDiff (canonFn m) f)
+            | .err e => some s!"model-returns {e}"
+            | .panic => some "model-panics"
+        | .err e => some s!"worklist model-returns {e}"
+        | .panic => some "worklist model-panics"
+    | _, _ => some "unparsable-tr"
+  | _, _ => none      -- answers without a `tr` field (errors, old corpus lines) are not compared
+
+def handle (line : String) : String :=
+  let base := handleBase line
+  if base.startsWith "ok" then
+    match line.splitOn "\t" with
+    | [req, ans] =>
+      match asmCheck req ans with
+      | none => base
+      | some d => "asm-mismatch " ++ d ++ "\t-"
+    | _ => base
+  else base
 
 def main : IO Unit := driverLoop handle
